@@ -44,6 +44,12 @@ func npMain(args []string) error {
 			grng := rand.New(rand.NewSource(*seed*1000 + int64(sc*100+g)))
 			go func(g int) {
 				defer wg.Done()
+				defer func() {
+					if p := recover(); p != nil {
+						// e.g. a name cleared under its holder: the specification has no action for this
+						tr.Emit(Ev{"ev": "Panic", "g": g, "text": fmt.Sprint(p)})
+					}
+				}()
 				for i := 0; i < *iters; i++ {
 					var names []*namepool.Name
 					k := 1 + grng.Intn(3)
